@@ -64,3 +64,22 @@ package mangos
 //@ interface TranPipe.Recv
 //@   ensures isnil(result1) ==> result0 != nil && arrof(result0.Header) != arrof(result0.Body) && len(result0.Header) == 0
 //@   ensures !isnil(result1) ==> result0 == nil
+//@
+//@ func Device
+//@   nullable s1 s2
+//@   ensures isnil(s1) && isnil(s2) ==> result == ErrClosed
+//@   ensures !isnil(result) ==> !spawned("forwarder")
+//@   ensures isnil(result) ==> spawned("forwarder")
+//@
+//@ func forwarder
+//@   ghost m0 = result0 at call:RecvMsg#1
+//@   before call:SendMsg#1 assert m == m0 && m != nil
+//@
+//@ interface Socket.RecvMsg
+//@   ensures isnil(result1) ==> result0 != nil
+//@
+//@ interface ProtocolBase.RecvMsg
+//@   ensures isnil(result1) ==> result0 != nil
+//@
+//@ interface ProtocolContext.RecvMsg
+//@   ensures isnil(result1) ==> result0 != nil
